@@ -367,6 +367,43 @@ func c09BodyShape(f *File, fn *ast.FuncDecl) (string, int) {
 				return "readBeforeAcquire", f.Line(a)
 			}
 		}
+		// uses of the object behind obj.Save(id): in immediate-write mode SaveFunction has released the guard by then
+		if saves := f.Calls(scope, obj.Name+".Save"); len(saves) > 0 {
+			last := saves[len(saves)-1]
+			late, lateLine := "", 0
+			ast.Inspect(scope, func(x ast.Node) bool {
+				c, ok := x.(*ast.CallExpr)
+				if !ok || c.Pos() <= last.End() {
+					return true
+				}
+				if sel, ok := c.Fun.(*ast.SelectorExpr); ok {
+					if id, ok := sel.X.(*ast.Ident); ok && id.Name == obj.Name {
+						if sel.Sel.Name == "ReleaseTreasureGuard" || !c09IsAccess(sel.Sel.Name) {
+							return true
+						}
+						if strings.HasPrefix(sel.Sel.Name, "Set") || strings.HasPrefix(sel.Sel.Name, "Reset") || strings.HasPrefix(sel.Sel.Name, "Body") ||
+							strings.HasPrefix(sel.Sel.Name, "LoadFrom") || sel.Sel.Name == "Save" {
+							late, lateLine = "writeAfterRelease", f.Line(c)
+						} else if late == "" {
+							late, lateLine = "respAfterSave", f.Line(c)
+						}
+						return true
+					}
+				}
+				for _, a := range c.Args {
+					if id, ok := a.(*ast.Ident); ok && id.Name == obj.Name && late == "" {
+						late, lateLine = "respAfterSave", f.Line(c)
+					}
+				}
+				return true
+			})
+			if late == "writeAfterRelease" {
+				return late, lateLine
+			}
+			if late == "respAfterSave" && res == "guarded" {
+				res, line = late, lateLine
+			}
+		}
 		if !deferred {
 			first := plainRel[0]
 			for _, r := range plainRel {
@@ -420,6 +457,10 @@ func c09Shape(fs *Facts, sw *File) {
 		case "readBeforeAcquire":
 			result, where = r, w
 		case "writeAfterRelease":
+			if result == "guarded" || result == "respAfterSave" {
+				result, where = r, w
+			}
+		case "respAfterSave":
 			if result == "guarded" {
 				result, where = r, w
 			}
